@@ -69,8 +69,13 @@ pub fn gen(seed: u64, cases: usize, flavour: &str, path: &str) {
             let k = g.rng.below(nd as u64 + 3);
             for _ in 0..k {
                 if g.rng.chance(1, 6) {
-                    let x = *g.rng.pick(&[10.0, 500.0, 1e9]);
-                    g.line(&format!("WD {}", fb(x)));
+                    // small, large, impossible, or exactly the broker's whole cash balance
+                    if g.rng.chance(1, 4) {
+                        g.line("WD cash");
+                    } else {
+                        let x = *g.rng.pick(&[10.0, 500.0, 1e9]);
+                        g.line(&format!("WD {}", fb(x)));
+                    }
                     g.stats.bump("WD");
                 }
                 if g.rng.chance(1, 15) {
@@ -141,7 +146,8 @@ fn run_case<C: UistClient + StateView>(mut strat: Strat<C>, id: BacktestId, line
                 out.emit(&format!("{line} @ W {w}"), &format!("EV ok ; {tl}"));
             }
             "WD" => {
-                let x = pf(t[1]);
+                let x = if t[1] == "cash" { strat.verif_brkr().get_cash_balance() } else { pf(t[1]) };
+                let line = format!("WD {}", fb(x));
                 let e = match strat.withdraw_cash(&x) {
                     alator::strategy::StrategyEvent::WithdrawSuccess(_) => "WOK",
                     alator::strategy::StrategyEvent::WithdrawFailure(_) => "WFAIL",
@@ -157,12 +163,7 @@ fn run_case<C: UistClient + StateView>(mut strat: Strat<C>, id: BacktestId, line
                     (snap.1, snap.2)
                 });
                 let r = catch(|| block_on(strat.update()));
-                if r.is_none() {
-                    dead = true;
-                    out.stats.bump("update_panic");
-                    out.emit("UPDATE @ A 0 ; W 0", "PANIC");
-                    continue;
-                }
+                // the tick inside update() happened even if the target-weight diff panicked afterwards
                 let admitted: Vec<Order> = strat.verif_brkr().verif_client().view(|s| {
                     s.backtests.get(&id).unwrap().exchange.verif_snapshot().0.into_iter().filter(|o| o.order_id.unwrap() >= next_before).collect()
                 });
@@ -170,6 +171,14 @@ fn run_case<C: UistClient + StateView>(mut strat: Strat<C>, id: BacktestId, line
                     Some(ix) if ix.len() == batch.len() => format!("A {} {}", ix.len(), ix.iter().map(|i| i.to_string()).collect::<Vec<_>>().join(" ")),
                     _ => format!("A {} BAD", admitted.len()),
                 };
+                if r.is_none() {
+                    dead = true;
+                    out.stats.bump("update_panic");
+                    let lvz = strat.verif_brkr().get_liquidation_value() == 0.0;
+                    let positions = strat.verif_brkr().get_positions();
+                    out.emit(&format!("UPDATE @ {a} ; W {} {}", positions.len(), positions.join(" ")), &format!("PANIC ; LVZ {lvz}"));
+                    continue;
+                }
                 out.stats.bump("update");
                 let h = strat.get_history();
                 let sn = h.last().unwrap();
@@ -186,7 +195,9 @@ fn run_case<C: UistClient + StateView>(mut strat: Strat<C>, id: BacktestId, line
                     // the only panic on this path is the zero-value panic of the target-weight diff, which the
                     // model cannot foresee without the per-update oracles: tell it (the monitor checks that
                     // this happens only to portfolios of zero value)
-                    out.emit("RUNREST @ W 0 ; RUNPANIC 1", "PANIC");
+                    // is it the documented zero-value panic of the target-weight diff?
+                    let lvz = strat.verif_brkr().get_liquidation_value() == 0.0;
+                    out.emit("RUNREST @ W 0 ; RUNPANIC 1", &format!("PANIC ; LVZ {lvz}"));
                     continue;
                 }
                 let h = strat.get_history();
